@@ -68,6 +68,13 @@ NEEDS = {
  "C44-versioned-update-executemany-batch": "client-side versioning, one flush updating >= 2 rows of the mapper with the same changed columns and different version counters; a later write of rows 2..n",
  "C52-default-registry-by-ident-2": "default thread scope, a thread ends without remove(), a later thread gets the recycled identifier (same mechanism as the round-2 change, found independently)",
  "C02-many-paramsets-drop-stmt-params": "compiled cache in use + execution with a LIST of two or more parameter sets + DML embedding a SELECT / scalar subquery / text that had Executable.params() applied",
+ "C30-m2m-process-deletes-shared-set": "self-referential bidirectional many-to-many, two nodes linked in both directions, both deleted in one flush (same mechanism as a round-1 change, found independently)",
+ "C31-preprocess-decided-on-first-pass": "one flush in which a relationship's first presort pass sees states without changes and a later pass (delete-orphan found during flush, unidirectional collection) has children whose FK must be nulled",
+ "C32-provisioning-state-stuck": "the flush is the first database access of its transaction / savepoint and obtaining the connection fails (connect error, BEGIN / SAVEPOINT failing, after_begin hook raising)",
+ "C33-begin-nested-autoflush-only": "autoflush=False (or a no_autoflush block), unflushed work pending when begin_nested() is called, savepoint rolled back",
+ "C34-passive-cascade-key-not-switched": "passive_updates with a real ON UPDATE CASCADE, child whose FK column is part of its own primary key loaded in the session while the parent key changes, then looked up again",
+ "C35-make-transient-keeps-deleted-flag": "delete + flush, object becomes detached (commit / expunge / close), make_transient + add + flush",
+ "C36-partial-expire-keeps-deleted-history": "del obj.relationship_attr, then Session.expire(obj, [that attr]), then read or flush",
  "C52-default-registry-by-ident": "default (thread-local) scoped_session; a thread ends without remove(); a later thread gets the recycled thread identifier",
 }
 base = "/verif/seeded"
